@@ -21,7 +21,16 @@ def main():
     buf = io.StringIO()
     try:
         with contextlib.redirect_stdout(buf):
-            mod = importlib.import_module(modname)
+            if modname in sys.stdlib_module_names or modname in sys.modules:
+                # a machine called "Token" generates token.py: importing it BY NAME would return the standard library's
+                # module of that name - load the generated file itself, under an alias
+                import importlib.util
+                spec = importlib.util.spec_from_file_location("generated_" + modname, os.path.join(outdir, modname + ".py"))
+                mod = importlib.util.module_from_spec(spec)
+                sys.modules["generated_" + modname] = mod
+                spec.loader.exec_module(mod)
+            else:
+                mod = importlib.import_module(modname)
     except BaseException as exc:  # noqa
         res["error"] = "import raised %s: %s" % (type(exc).__name__, str(exc)[:200])
         print(json.dumps(res))
